@@ -30,9 +30,14 @@ TRUSTED = [
     "SpreadsheetValidator.validate's 'self._onset_validator = OnsetValidator()' is modelled by sv_validate / "
     "validate_seq (a fresh validator per call); tied by sequences of files validated on ONE SpreadsheetValidator "
     "object, each file compared with the model and the statement run from the empty state",
-    "str.casefold is modelled on ASCII only (A-Z -> a-z); the generators use ASCII definition names",
+    "str.casefold is modelled per character: ASCII by rule, the non-ASCII code points of the generators' name "
+    "alphabet (sharp s, capital sharp s, final sigma, accented Greek, fi ligature, long s) by Gen/C10Fold.v, "
+    "regenerated from CPython's str.casefold on every run; other code points are outside the model",
 ]
 ASSUMPTIONS = [
+    "Delay values in any accepted unit spelling enter the model as their value in 1/8 s computed from the schema "
+    "XML's conversion factors (read with xml.etree, independent of UnitEntry); prefixes whose factor the XML writes as "
+    "'10e..' are left out; the recorded effective onsets of split_df must equal these values exactly",
     "onset and Delay values are exact dyadic numbers (multiples of 1/8 s); the 1e-9 tolerance of "
     "_indexed_dict_from_onsets, float parsing, n/a (NaN) onsets and non-numeric Delay values are not modelled "
     "(Delay units without a conversion to seconds ARE: such a group stays in its row)",
@@ -47,12 +52,48 @@ ASSUMPTIONS = [
 
 KINDS = ["Onset", "Offset", "Inset"]
 SUBKINDS = ("OFFSET_BEFORE_ONSET", "INSET_BEFORE_ONSET", "ONSET_SAME_DEFS_ONE_ROW")
-DEFS_TEXT = "(Definition/A,(Red)),(Definition/B/#,(Label/#)),(Definition/C,(Blue))"
+# declared name -> content; names with non-ASCII letters whose lower() differs from casefold() (sharp s, final
+# sigma, ligature, long s) are legal definition names under 8.3.0
+DEFS = [("A", "(Red)"), ("B/#", "(Label/#)"), ("C", "(Blue)"), ("Ma\u00df", "(Red)"),
+        ("\u0389\u03c7\u03bf\u03c2", "(Blue)"), ("\u039b\u03cc\u03b3\u03bf\u03c2/#", "(Label/#)"),
+        ("\ufb01le", "(Green)"), ("\u017fet", "(Square)")]
+DEFS_TEXT = ",".join(f"(Definition/{n},{b})" for n, b in DEFS)
 NAMES5 = ["A", "a", "B/1", "B/2", "b/1"]
-NAMES_ALL = ["A", "a", "B/1", "B/2", "b/1", "C", "c", "B/x", "B/X", "b/2"]
+# spellings of the non-ASCII names: as declared, upper case, case-folded, lower case, mixed
+NAMES_U = ["Ma\u00df", "MASS", "ma\u1e9e", "\u0389\u03c7\u03bf\u03c2", "\u0389\u03a7\u039f\u03a3",
+           "\u03ae\u03c7\u03bf\u03c3", "\u039b\u03cc\u03b3\u03bf\u03c2/3", "\u039b\u038c\u0393\u039f\u03a3/3",
+           "\u03bb\u03cc\u03b3\u03bf\u03c3/4", "\ufb01le", "FILE", "file", "\u017fet", "SET", "Set"]
+NAMES_ALL = ["A", "a", "B/1", "B/2", "b/1", "C", "c", "B/x", "B/X", "b/2"] + NAMES_U
+FAMILIES = [["A", "a"], ["B/1", "b/1", "B/2", "B/x", "B/X", "b/2"], ["C", "c"], NAMES_U[0:3], NAMES_U[3:6],
+            NAMES_U[6:9], NAMES_U[9:12], NAMES_U[12:15]]
+
+
+def sample_names(rng, kmax):
+    """spellings drawn from 1-3 definition families, so that variants of one name meet often."""
+    pool = [n for fam in rng.sample(FAMILIES, rng.randint(1, 3)) for n in fam]
+    return rng.sample(pool, min(len(pool), rng.randint(1, kmax)))
+
+
+NAMES_U4 = ["Ma\u00df", "MASS", "\u0389\u03c7\u03bf\u03c2", "\u0389\u03a7\u039f\u03a3"]
 DELAYS = [2, 4, 8, 12]          # units of 1/8 s
 
 _st = {}
+
+
+def translate():
+    """coq/Gen/C10Fold.v: CPython's str.casefold for every non-ASCII code point of the name alphabet (fail closed:
+    casefold must be a per-character mapping on the alphabet, and the table must cover every such code point)."""
+    chars = sorted({c for n in NAMES_ALL + [d for d, _ in DEFS] for c in n if ord(c) > 127})
+    for n in NAMES_ALL:
+        if n.casefold() != "".join(c.casefold() for c in n):
+            raise RuntimeError(f"str.casefold is not per-character on {n!r}")
+    if not any(n.lower() != n.casefold() for n in NAMES_ALL):
+        raise RuntimeError("alphabet has no name whose lower() differs from casefold()")
+    rows = ["  (%d%%N, [%s])" % (ord(c), "; ".join("%d%%N" % ord(x) for x in c.casefold())) for c in chars]
+    text = ("(* GENERATED by harness/c10.py translate() from CPython's str.casefold -- do not edit. *)\n"
+            "From Coq Require Import List NArith.\nImport ListNotations.\n\n"
+            "Definition fold_table : list (N * list N) :=\n  [" + ";\n   ".join(r.strip() for r in rows) + "].\n")
+    C.write_if_changed(os.path.join(C.COQ, "Gen", "C10Fold.v"), text)
 
 
 # ---------------------------------------------------------------- implementation side
@@ -83,7 +124,7 @@ def _init():
     ErrorHandler.format_error = staticmethod(fe)
     # (2) record the tie order chosen by every sort_dataframe_by_onsets call
     orig_sort = df_util.sort_dataframe_by_onsets
-    rec = {"perms": [], "ovs": [], "invalid": None}
+    rec = {"perms": [], "ovs": [], "invalid": None, "times": None}
 
     def sort_rec(df):
         out = orig_sort(df)
@@ -93,6 +134,7 @@ def _init():
         keys = [float(x) for x in pd.to_numeric(df["onset"], errors="coerce")]
         stable = all(not (keys[perm[i]] == keys[perm[i + 1]] and perm[i] > perm[i + 1]) for i in range(len(perm) - 1))
         rec["perms"].append((perm, stable))
+        rec["times"] = sorted(keys)              # the last call sorts split_df: its onsets are the effective times
         return out
     df_util.sort_dataframe_by_onsets = sort_rec
     # (3) see the OnsetValidator created by the file validator and the rows it skipped
@@ -123,6 +165,98 @@ def _init():
     sidecar = Sidecar(io.StringIO(sidecar_json()))
     _st.update(schema=schema, dd=dd, rec=rec, cache={}, sidecar=sidecar)
     return _st
+
+
+def _decimal_text(fr):
+    """exact decimal text of a Fraction whose denominator is 2^a 5^b, else None."""
+    num, den, k = fr.numerator, fr.denominator, 0
+    while den % 10 == 0:
+        den //= 10; k += 1
+    while den % 2 == 0:
+        den //= 2; num *= 5; k += 1
+    while den % 5 == 0:
+        den //= 5; num *= 2; k += 1
+    if den != 1:
+        return None
+    txt = str(num).rjust(k + 1, "0")
+    return (txt[:-k] + "." + txt[-k:]).rstrip("0").rstrip(".") if k else txt
+
+
+def schema_time_factors():
+    """Factors of every spelling of a time unit, read from the schema XML with xml.etree -- independent of
+    hed-python's UnitEntry tables.  Returns [(spelling, Fraction seconds per unit)] (names in lower case, '+s'
+    plurals, SI prefixes only on SI units; symbols with symbol prefixes).  Prefixes whose factor is written
+    '10e..' in the XML are left out."""
+    import xml.etree.ElementTree as ET
+    from fractions import Fraction
+    root = ET.parse(os.path.join(C.REPO, "hed/schema/schema_data/HED8.3.0.xml")).getroot()
+
+    def attrs(el):
+        return {a.findtext("name"): [v.text for v in a.findall("value")] for a in el.findall("attribute")}
+    name_mods, sym_mods = [("", Fraction(1))], [("", Fraction(1))]
+    for m in root.find("unitModifierDefinitions"):
+        a = attrs(m)
+        cf = (a.get("conversionFactor") or [None])[0]
+        if cf is None or "e" in cf.lower():
+            continue
+        (name_mods if "SIUnitModifier" in a else sym_mods).append((m.findtext("name"), Fraction(cf)))
+    out = []
+    for uc in root.find("unitClassDefinitions"):
+        if uc.findtext("name") != "timeUnits":
+            continue
+        for u in uc.findall("unit"):
+            a = attrs(u)
+            if "conversionFactor" not in a:
+                continue
+            f, nm = Fraction(a["conversionFactor"][0]), u.findtext("name")
+            mods = (sym_mods if "unitSymbol" in a else name_mods) if "SIUnit" in a else [("", Fraction(1))]
+            for pre, pf in mods:
+                if "unitSymbol" in a:
+                    out.append((pre + nm, f * pf, True))
+                else:
+                    out += [(pre + nm, f * pf, False), (pre + nm + "s", f * pf, False)]
+    if len(out) < 20:
+        raise RuntimeError("unrecognised unit tables in the schema XML")
+    return out
+
+
+_spell = []
+
+
+def delay_spellings():
+    """[(text after 'Delay/', delay in 1/8 s)]: every accepted spelling (letter cases of names, plurals, symbols,
+    SI prefixes) with values whose product with the schema factor is an exact multiple of 1/8 s."""
+    if _spell:
+        return _spell
+    from fractions import Fraction
+    from hed.models.hed_string import HedString
+    from hed.validator.hed_validator import HedValidator
+    st = _init()
+    hv = HedValidator(st["schema"])
+    for unit, fac, is_symbol in schema_time_factors():
+        variants = [unit] if is_symbol else sorted({unit, unit.capitalize(), unit.upper(),
+                                                    unit[:-7] + unit[-7:].capitalize() if "second" in unit else unit})
+        k = 0
+        for T in (2, 4, 8, 12, 16, 24, 72, 216):
+            val = _decimal_text(Fraction(T, 8) / fac)
+            if val is None or len(val) > 10 or float(val) * float(fac) != T / 8.0:
+                continue
+            for v in variants:
+                txt = f"{val} {v}"
+                iss = hv.run_basic_checks(HedString(f"(Delay/{txt},(Red))", st["schema"]), allow_placeholders=False)
+                if not iss:
+                    _spell.append((txt, T))
+            k += 1
+            if k == 2:
+                break
+    if len({t.split()[1].lower() for t, _ in _spell}) < 12:
+        raise RuntimeError(f"too few accepted unit spellings: {_spell}")
+    return _spell
+
+
+def delay_tag_text(delay, dform):
+    """dform: 0/1 = the two standard texts, or the spelled value-and-unit text itself."""
+    return "Delay/" + dform if isinstance(dform, str) else delay_texts(delay)[dform]
 
 
 def delay_texts(d):
@@ -178,10 +312,8 @@ def def_text(name, expand):
     if not expand:
         return "Def/" + name
     base, _, val = name.partition("/")
-    body = {"a": "(Red)", "c": "(Blue)"}.get(base.lower())
-    if body is None:
-        body = f"(Label/{val})"
-    return f"(Def-expand/{name},{body})"
+    body = next(b for n, b in DEFS if n.partition("/")[0].casefold() == base.casefold())
+    return f"(Def-expand/{name},{body.replace('#', val)})"
 
 
 def marker_text(m, delay=None, dform=0):
@@ -193,7 +325,7 @@ def marker_text(m, delay=None, dform=0):
     else:
         parts.append(KINDS[kind])
     if delay is not None:
-        parts.insert(1 if len(parts) > 1 else 0, delay_texts(delay)[dform])
+        parts.insert(1 if len(parts) > 1 else 0, delay_tag_text(delay, dform))
     if form & 8 and kind != 1:
         parts.append("(Red/Crimsonish)")          # legal extension inside the inner group: TAG_EXTENDED warning
     elif form & 4 and kind != 1:
@@ -208,7 +340,7 @@ def group_text(g):
     if m is not None:
         return marker_text(m, delay, dform)
     if delay is not None:
-        return "(" + delay_texts(delay)[dform] + ",(Red))"
+        return "(" + delay_tag_text(delay, dform) + ",(Red))"
     return "(Red,Square)"
 
 
@@ -313,7 +445,7 @@ def impl_file(case):
                 out.append([k, int(i["ec_row"]) - 2, pos, name])
         ov = rec["ovs"][-1] if rec["ovs"] else None
         return {"issues": sorted(out), "state": list(ov._onsets.keys()) if ov else None,
-                "perms": [[p, s] for p, s in rec["perms"]], "invalid": rec["invalid"],
+                "perms": [[p, s] for p, s in rec["perms"]], "invalid": rec["invalid"], "times": rec["times"],
                 "unordered": any(i["code"] == "ONSETS_UNORDERED" for i in issues)}
     except Exception as e:  # noqa
         return {"exn": exn_name(e), "msg": str(e)[:200]}
@@ -348,6 +480,7 @@ def impl_seq(case):
             ov = sv._onset_validator
             out.append({"issues": sorted(iss), "state": list(ov._onsets.keys()) if ov else None,
                         "perms": [[p, s2] for p, s2 in rec["perms"]], "invalid": rec["invalid"],
+                        "times": rec["times"],
                         "fresh_validators": len(rec["ovs"])})
     except Exception as e:  # noqa
         return {"exn": exn_name(e), "msg": str(e)[:200]}
@@ -542,7 +675,7 @@ def rand_marker(rng, names, malformed=0.0):
 def gen_random_histories(rng, n, malformed):
     out = []
     for _ in range(n):
-        names = rng.sample(NAMES_ALL, rng.randint(1, 5))
+        names = sample_names(rng, 5)
         h = [[rand_marker(rng, names, malformed) for _ in range(rng.choice([1, 1, 1, 2, 2, 3, 4]))]
              for _ in range(rng.randint(1, 9))]
         out.append({"t": "H", "h": h})
@@ -551,8 +684,9 @@ def gen_random_histories(rng, n, malformed):
 
 def gen_random_files(rng, n, malformed=0.0, unsorted=False):
     out = []
+    spell = delay_spellings()
     for _ in range(n):
-        names = rng.sample(NAMES_ALL, rng.randint(1, 4))
+        names = sample_names(rng, 4)
         t = rng.choice([0, 4, 8])
         rows = []
         pdelay = rng.choice([0.0, 0.15, 0.3, 0.5])
@@ -567,7 +701,10 @@ def gen_random_files(rng, n, malformed=0.0, unsorted=False):
                 if m is not None and len(m[1]) == 1 and rng.random() < pwarn / 2:
                     m[2] |= 8                            # extension inside the marker's inner group
                 d = rng.choice(DELAYS + ["X", "X"]) if rng.random() < pdelay else None
-                gs.append([d, m, rng.randrange(2)])
+                df = rng.randrange(2)
+                if d is not None and d != "X" and rng.random() < 0.6:      # any accepted spelling of a time unit
+                    df, d = rng.choice(spell)
+                gs.append([d, m, df])
             row = {"on": t, "g": gs, "fill": int(rng.random() < 0.2),
                    "bad": int(rng.random() < malformed * 0.5)}
             if rng.random() < pwarn:
@@ -610,6 +747,20 @@ def focused_files():
                     {"on": 32, "g": [[None, [1, ["A"], 0], 0], [None, [1, ["b/1"], 0], 0], [None, [1, ["c"], 0], 0]]}]
             out.append({"t": "F", "file": 0, "rows": rows})
             out.append({"t": "F", "file": 0, "rows": rows[1:]})
+    # (c) every accepted spelling of a time unit (names in any case, plurals, symbols, SI prefixes): a delayed
+    #     Onset / Offset with Insets just before and just after its effective time (schema factors)
+    for j, (txt, T) in enumerate(delay_spellings()):
+        first = [[T, [0, ["A"], 0], txt]] if j % 2 == 0 else [[None, [0, ["A"], 0], 0], [T, [1, ["a"], 2], txt]]
+        out.append({"t": "F", "file": 0, "rows": [
+            {"on": 8, "g": first}, {"on": 8 + T - 1, "g": [[None, [2, ["a"], 0], 0]]},
+            {"on": 8 + T + 1, "g": [[None, [2, ["A"], 0], 0]]}, {"on": 400, "g": [[None, [1, ["A"], 0], 0]]}]})
+    # (d) definition names with letters whose lower() differs from casefold(): every combination of spellings
+    for fam in (NAMES_U[0:3], NAMES_U[3:6], NAMES_U[6:9], NAMES_U[9:12], NAMES_U[12:15]):
+        for j, (s1, s2, s3) in enumerate(it.product(fam, repeat=3)):
+            d = [None, 4, None][j % 3]
+            rows = [{"on": 8, "g": [[d, [0, [s1], (j % 2) * 2], 1]]}, {"on": 16, "g": [[None, [2, [s2], 4], 0]]},
+                    {"on": 24, "g": [[None, [1, [s3], 0], 0]]}, {"on": 24 if j % 4 == 3 else 32, "g": [[None, [1, [s1], 0], 0]]}]
+            out.append({"t": "F", "file": 0, "rows": rows})
     for ds in it.product(["X", 4, 12], repeat=2):          # two Delay groups of one name: year first / seconds first
         rows = [{"on": 8, "g": [[ds[0], [0, ["A"], 0], 0], [ds[1], [1, ["A"], 0], 1]]},
                 {"on": 10, "g": [[None, [2, ["a"], 0], 0]]}, {"on": 16, "g": [[None, [2, ["a"], 0], 0]]},
@@ -639,12 +790,12 @@ def exhaustive_files():
 def seq_cases(rng, n):
     """Several files for ONE SpreadsheetValidator object: a file that ends with scopes open, then a file that
     starts with Offset/Inset of those names (case / value variants), optionally a third one."""
-    fams = [["A", "a"], ["B/1", "b/1", "B/2"], ["C", "c"]]
+    fams = [["A", "a"], ["B/1", "b/1", "B/2"], ["C", "c"], NAMES_U[0:3], NAMES_U[3:6], NAMES_U[6:9]]
     out = []
     # every (name left open) x (Offset|Inset of a spelling of it or of another name), as one-row files
     for fam in fams:
         for x in fam:
-            for y in fam + [fams[(fams.index(fam) + 1) % 3][0]]:
+            for y in fam + [fams[(fams.index(fam) + 1) % len(fams)][0]]:
                 for k in (1, 2):
                     out.append({"t": "S", "files": [[{"on": 8, "g": [[None, [0, [x], 0], 0]]}],
                                                     [{"on": 4, "g": [[None, [k, [y], 0], 0]]}]]})
@@ -652,7 +803,7 @@ def seq_cases(rng, n):
                                     [{"on": 8, "g": [[None, [0, ["B/1"], 0], 0]]}],
                                     [{"on": 8, "g": [[None, [1, ["a"], 0], 0], [None, [2, ["b/1"], 0], 0]]}]]})
     for _ in range(n):
-        names = rng.sample(NAMES_ALL, rng.randint(1, 4))
+        names = sample_names(rng, 4)
         files = []
         for fno in range(rng.choice([2, 2, 3])):
             t = rng.choice([0, 4, 8])
@@ -715,11 +866,23 @@ def is_sorted_file(case):
     return all(a <= b for a, b in zip(ons, ons[1:]))
 
 
+def times_ok(rows, fr):
+    """every row and every Delay-shifted group takes effect at onset (+ delay, by the schema's own factors)."""
+    want = sorted(e[0] / 8.0 for e in split_entries(rows))
+    return fr.get("times") == want, want
+
+
 def oracle(case, r, res):
     """Clauses of the statement on the implementation's behaviour.  Returns True when a failure was reported."""
     if "exn" in r:
         res.report("never-raises", case, f"{r['exn']}: {r.get('msg')}")
         return True
+    for rows, fr in ([(case["rows"], r)] if case["t"] == "F" else
+                     list(zip(case["files"], r["files"])) if case["t"] == "S" else []):
+        ok, want = times_ok(rows, fr)
+        if not ok:
+            res.report("delay-effective-time", case, f"effective times impl={fr.get('times')} schema={want}")
+            return True
     if case["t"] == "H":
         exp = ref_history(case["h"])
         got = [[sorted(st), sorted(iss)] for st, iss in r["trace"]]
@@ -785,16 +948,20 @@ def classify(got, exp):
 def exh_specs(tier):
     """(names, number of markers) families enumerated exhaustively (every grouping into time points)."""
     if tier == "small":      # VERIF_C10_BUDGET=small: reduced volume for mutation self-tests on a loaded machine
-        return [(NAMES5, 1), (NAMES5, 2), (NAMES5[:4], 3)], \
-            "all histories of <=2 markers over {Onset,Offset,Inset}x{A,a,B/1,B/2,b/1} and of 3 markers over " \
-            "{A,a,B/1,B/2}, each with every grouping into time points"
+        return [(NAMES5, 1), (NAMES5, 2), (NAMES5[:4], 3), (NAMES_U4, 1), (NAMES_U4, 2)], \
+            "all histories of <=2 markers over {Onset,Offset,Inset}x{A,a,B/1,B/2,b/1}, of 3 markers over " \
+            "{A,a,B/1,B/2} and of <=2 markers over {Mass-sharp-s, MASS, Echos-final-sigma, ECHOS}, each with every " \
+            "grouping into time points"
     if tier == "quick":
-        return [(NAMES5, 1), (NAMES5, 2), (NAMES5, 3), (NAMES5[:4], 4)], \
-            "all histories of <=3 markers over {Onset,Offset,Inset}x{A,a,B/1,B/2,b/1} and of 4 markers over " \
-            "{A,a,B/1,B/2}, each with every grouping into time points"
-    return [(NAMES5, 1), (NAMES5, 2), (NAMES5, 3), (NAMES5, 4), (NAMES5[:4], 5), (NAMES5[:3], 6)], \
+        return [(NAMES5, 1), (NAMES5, 2), (NAMES5, 3), (NAMES5[:4], 4), (NAMES_U4, 1), (NAMES_U4, 2), (NAMES_U4, 3)], \
+            "all histories of <=3 markers over {Onset,Offset,Inset}x{A,a,B/1,B/2,b/1}, of 4 markers over " \
+            "{A,a,B/1,B/2} and of <=3 markers over the non-ASCII spellings {Mass-sharp-s, MASS, Echos-final-sigma, " \
+            "ECHOS}, each with every grouping into time points"
+    return [(NAMES5, 1), (NAMES5, 2), (NAMES5, 3), (NAMES5, 4), (NAMES5[:4], 5), (NAMES5[:3], 6),
+            (NAMES_U4, 1), (NAMES_U4, 2), (NAMES_U4, 3), (NAMES_U4, 4)], \
         "all histories of <=4 markers over {Onset,Offset,Inset}x{A,a,B/1,B/2,b/1}, of 5 markers over " \
-        "{A,a,B/1,B/2} and of 6 markers over {A,a,B/1}, each with every grouping into time points"
+        "{A,a,B/1,B/2}, of 6 markers over {A,a,B/1} and of <=4 markers over the non-ASCII spellings {Mass-sharp-s, " \
+        "MASS, Echos-final-sigma, ECHOS}, each with every grouping into time points"
 
 
 def exh_slice(names, n, prefix):
